@@ -141,7 +141,11 @@ def history_stream(ctx, count):
             continue
         script = []
         for step in range(rng.randint(2, 6)):
-            a = rng.randint(1, max(1, L)); b = rng.randint(a, min(L + 2, a + rng.choice([0, 1, 3, L])))
+            prev = [x for x in script if x[0] == "lookup"]
+            if prev and rng.random() < 0.4:
+                _, a, b = rng.choice(prev)              # the SAME region again (results of one region must not share state)
+            else:
+                a = rng.randint(1, max(1, L)); b = rng.randint(a, min(L + 2, a + rng.choice([0, 1, 3, L])))
             script.append(["lookup", a, b])
             inp = {"rows": rows, "script": [list(x) for x in script]}
             try:
@@ -176,8 +180,71 @@ def history_stream(ctx, count):
                 script.append([op])
 
 
+def reindex_stream(ctx, count):
+    """a Scaffold object that has been indexed once is CHANGED (a row replaced by one of another length, a gap inserted in front, the
+    rows reversed, a row removed) and put into a NEW IndexedAssembly: lookups must equal the brute-force scan of the rows as they are now"""
+    from tola.assembly.indexed_assembly import IndexedAssembly
+    from tola.assembly.fragment import Fragment
+    from tola.assembly.gap import Gap
+    out, rng = ctx.out, ctx.rng
+    for _ in range(count):
+        rows, oid = [], 0
+        for _k in range(rng.randint(2, 6)):
+            if rows and rng.random() < 0.4:
+                rows.append(conv.jgap(rng.choice([1, 2, 5])))
+            ln = rng.randint(1, 9)
+            rows.append(conv.jfrag(oid, f"c{oid}", 3, 3 + ln - 1, rng.choice([1, -1]))); oid += 1
+        sc = conv.to_real_scaffold({"name": "s", "rows": rows})
+        try:
+            IndexedAssembly("first", scaffolds=[sc])
+        except Exception:
+            continue
+        edit = rng.choice(["replace", "insert-front", "reverse", "remove", "append"])
+        rows2 = [dict(r) for r in rows]
+        if edit == "replace":
+            i = rng.randrange(len(rows2))
+            rows2[i] = conv.jfrag(oid, f"c{oid}", 1, rng.randint(1, 12), 1); oid += 1
+            sc.rows[i] = conv.to_real_scaffold({"name": "x", "rows": [rows2[i]]}).rows[0]
+        elif edit == "insert-front":
+            g = conv.jgap(rng.choice([1, 4]))
+            rows2.insert(0, g); sc.rows.insert(0, Gap(g["len"], g["type"]))
+        elif edit == "reverse":
+            rows2.reverse(); sc.rows.reverse()
+        elif edit == "remove" and len(rows2) > 1:
+            i = rng.randrange(len(rows2)); rows2.pop(i); sc.rows.pop(i)
+        else:
+            f = conv.jfrag(oid, f"c{oid}", 1, rng.randint(1, 9), 1); oid += 1
+            rows2.append(f); sc.add_row(conv.to_real_scaffold({"name": "x", "rows": [f]}).rows[0])
+        for k, r in enumerate(rows2):
+            if r["t"] == "F":
+                r["oid"] = k
+        oid_of = {id(r): jr["oid"] for r, jr in zip(sc.rows, rows2) if jr["t"] == "F"}
+        L = sum(r["len"] if r["t"] == "G" else r["end"] - r["start"] + 1 for r in rows2)
+        try:
+            ia = IndexedAssembly("second", scaffolds=[sc])
+        except Exception as e:
+            continue
+        for _q in range(4):
+            a = rng.randint(1, max(1, L)); b = rng.randint(a, min(L + 2, a + rng.choice([0, 1, 3, L])))
+            inp = {"rows_when_first_indexed": rows, "edit": edit, "rows": rows2, "query": [a, b]}
+            out.case("reindexed-after-edit", inp, ("reindex", edit))
+            try:
+                o = ia.find_overlaps(Fragment("s", a, b, 1))
+            except Exception as e:
+                out.oracle_fail("reindexed-after-edit", inp, f"lookup raised {conv.errkind(e)} on a scaffold that was indexed before it was changed")
+                break
+            got = None if o is None else {"start": o.start, "end": o.end, "n": len(o.rows),
+                                          "oids": [oid_of.get(id(r), -1) if not isinstance(r, Gap) else -1 for r in o.rows]}
+            exp = brute(rows2, a, b)
+            if got != exp:
+                out.oracle_fail("reindexed-after-edit", inp, "lookup on a scaffold indexed again after a change differs from the brute-force scan of its current rows",
+                                detail={"real": got, "expected": exp})
+                break
+
+
 def run(ctx):
     history_stream(ctx, 3000 if ctx.thorough else 500)
+    reindex_stream(ctx, 1500 if ctx.thorough else 250)
     cases = list(small_scope(4 if ctx.thorough else 3))
     check_scaffolds(ctx, "small-scope-exhaustive", cases)
     ctx.out.exhaustive = True
